@@ -88,11 +88,51 @@ def restart_oracle(r):
     return why
 
 
+STALE = {}
+
+
 def run_restart(binp, seed, n):
     rc, rows, out = run_json([binp, "restart", str(seed), str(n)], timeout=600)
     if rc != 0:
         raise RuntimeError("looph restart failed: " + out[-2000:])
+    STALE[(seed, n)] = [r for r in rows if r.get("kind") == "staleworker"]
     return [r for r in rows if r.get("kind") == "restart"]
+
+
+def stale_worker_oracle(r, bound_only=False):
+    why = []
+    if r.get("error"):
+        return ["stale-worker scenario could not be driven: " + r["error"]]
+    if r["entered_with_cancelled_ctx"] and not bound_only:
+        why.append("after Stop(); Start() with WorkerLimit %d and a worker of the stopped run still busy, %d job(s) scheduled in the new run were "
+                   "entered with a cancelled context (taken by a worker of the stopped run)" % (r["limit"], r["entered_with_cancelled_ctx"]))
+    if r["max_inflight_new_run"] > r["limit"]:
+        why.append("%d jobs of the new run were executing at once, WorkerLimit is %d (a worker of the stopped run took a hand-over of the new run)"
+                   % (r["max_inflight_new_run"], r["limit"]))
+    if not bound_only:
+        if r["new_run_execs"] < 2 * r["limit"]:
+            why.append("only %d of %d jobs of the new run were executed" % (r["new_run_execs"], 2 * r["limit"]))
+        if not r["wait_returned"]:
+            why.append("Wait did not return after Stop")
+    return why
+
+
+def stale_worker_failures(binp, seed, n, bound_only=False):
+    if (seed, n) not in STALE:
+        run_restart(binp, seed, n)
+    rows = STALE[(seed, n)]
+    bad = [r for r in rows if stale_worker_oracle(r, bound_only)]
+    out = []
+    if bad:
+        run_restart(binp, seed + 1, n)
+        again = [r for r in STALE[(seed + 1, n)] if stale_worker_oracle(r, bound_only)]
+        if again:
+            r = bad[0]
+            out.append({"case": {"kind": "staleworker", "limit": r["limit"], "seed": seed, "n": n}, "why": stale_worker_oracle(r, bound_only),
+                        "failing_trials": "%d of %d, then %d of %d" % (len(bad), len(rows), len(again), len(STALE[(seed + 1, n)])),
+                        "how": "looph restart (staleworker): WorkerLimit(n); n jobs of run 1 still executing; Stop(); Start(); n jobs occupy the new "
+                               "workers, n more are due (the new loop is handing over); then the old jobs return"})
+    return rows, out
 
 
 def restart_failures(binp, seed, n):
